@@ -108,7 +108,8 @@ pub fn table_operands(chain: &[MV]) -> Vec<Operand> {
 
 /// random operand: 1–3 alternatives from the table (or a random parsed range)
 pub fn rand_operand(r: &mut Rng, table: &[Iv]) -> Option<Operand> {
-    match r.below(10) {
+    match r.below(11) {
+        10 => many_alt_operand(r, table),
         0..=2 => operand_from_text(&iv_text(r.pick(table))),
         3..=6 => {
             let n = 2 + r.below(2);
@@ -121,6 +122,55 @@ pub fn rand_operand(r: &mut Rng, table: &[Iv]) -> Option<Operand> {
             operand_from_text(&ast.plain_text())
         }
     }
+}
+
+/// operand whose ends are taken from the boundary probes of another operand's bounds: the
+/// exact successors, `-0` / `-0.0` / `-alpha` of the neighbouring tuples, patch±1 … — the
+/// relations between two ranges in which inclusive/exclusive and adjacency slips show
+pub fn neighbour_operand(r: &mut Rng, a: &Operand) -> Option<Operand> {
+    let mut probes = probe_set(&a.b.versions());
+    if probes.len() < 2 {
+        return None;
+    }
+    probes.sort_by(cmp_mv);
+    let nalt = 1 + r.below(2);
+    let mut alts = vec![];
+    for _ in 0..nalt {
+        let i = r.below(probes.len());
+        let j = r.below(probes.len());
+        let (l, h) = if i <= j { (&probes[i], &probes[j]) } else { (&probes[j], &probes[i]) };
+        let lo = match r.below(4) {
+            0 => End::Unb,
+            1 | 2 => End::Exc(l.no_build()),
+            _ => End::Inc(l.no_build()),
+        };
+        let hi = match r.below(4) {
+            0 => End::Unb,
+            1 | 2 => End::Exc(h.no_build()),
+            _ => End::Inc(h.no_build()),
+        };
+        if mv_eq(l, h) && !matches!((&lo, &hi), (End::Inc(_), End::Inc(_)) | (End::Unb, _) | (_, End::Unb)) {
+            continue;
+        }
+        alts.push(iv_text(&Iv { lo, hi }));
+    }
+    if alts.is_empty() {
+        return None;
+    }
+    operand_from_text(&alts.join(" || "))
+}
+
+/// operand with many (4..=9) alternatives from the table, with repeats and nested ones
+pub fn many_alt_operand(r: &mut Rng, table: &[Iv]) -> Option<Operand> {
+    let n = 4 + r.below(6);
+    let mut t: Vec<String> = (0..n).map(|_| iv_text(r.pick(table))).collect();
+    if r.chance(1, 2) {
+        // a repeated alternative that is not adjacent to its twin
+        let k = r.below(t.len());
+        let dup = t[k].clone();
+        t.push(dup);
+    }
+    operand_from_text(&t.join(" || "))
 }
 
 /// random operand over free versions (prerelease bounds, big numbers)
